@@ -891,6 +891,8 @@ class ANF:
                 # all(~x) == not any(x), any(~x) == not all(x); x != y is ~(x == y)
                 other = ("x", "numpy.any" if fn[1] == "numpy.all" else "numpy.all")
                 return mk_not("not", self._call_term(other, e, [inner], kw, cond, loops))
+        if fn[0] == "x" and fn[1] == "builtins.bool" and len(args) == 1 and not kw and args[0][0] in ("cmp", "bool") :
+            return args[0]      # bool() of a comparison / boolean combination is that truth value
         if fn[0] == "x" and fn[1] == "numpy.divide" and len(args) == 2 and not kw:
             return ("op", "/", args[0], args[1])
         if fn[0] == "x" and fn[1] == "numpy.arange" and len(args) == 2 and not kw:
@@ -937,7 +939,7 @@ class ANF:
         if g is None or getattr(g, "cls", None) is not None:
             return False
         a = g.node.args
-        if a.vararg or a.kwarg:
+        if a.vararg:
             return False
         # generators cannot be substituted
         return not any(isinstance(n, (ast.Yield, ast.YieldFrom)) for n in ast.walk(g.node))
@@ -1032,9 +1034,15 @@ class ANF:
         for p, v in zip(params, args):
             env[p] = v
         for k, v in kw:
+            if k == "**":
+                if a.kwarg is not None:
+                    env[a.kwarg.arg] = v        # **kwargs handed on
+                continue
             env[k] = v
         for p in params:
             env.setdefault(p, N(p))
+        if a.kwarg is not None:
+            env.setdefault(a.kwarg.arg, N(a.kwarg.arg))
         sub.auto_inline = self.auto_inline
         sub._depth = self._depth + 1
         sub._stack = self._stack | {qual, self.fi.qualname}
